@@ -567,9 +567,9 @@ func (eng *Engine) callWrites(c *ssa.CallCommon, w map[string]bool, stack map[*s
 		switch fn.Name() {
 		case "append":
 			w["ALLOC"] = true
-			w[kindOf(c.Args[0].Type().Underlying().(*types.Slice).Elem())] = true
+			typeKinds(c.Args[0].Type().Underlying().(*types.Slice).Elem(), w)
 		case "copy":
-			w[kindOf(c.Args[0].Type().Underlying().(*types.Slice).Elem())] = true
+			typeKinds(c.Args[0].Type().Underlying().(*types.Slice).Elem(), w)
 		case "delete":
 			w["MD"] = true
 		case "close":
